@@ -722,7 +722,7 @@ pub fn run(ctx: &mut Ctx) {
             run_case(ctx, &Json::obj().set("family", "theta").set("scenario", "theta_exact_all_versions").set("force_n", n).set("force_estimating", false).set("seed", 6u64));
         }
     }
-    let scale = ctx.tier_pick(20u64, 200);
+    let scale = ctx.tier_pick(20u64, 800);
     let fams: [(&str, u64); 5] = [("hll", 40), ("theta", 40), ("cpc", 16), ("tdigest", 18), ("small", 20)];
     for (fam, n) in fams {
         for i in 0..n * scale {
